@@ -57,3 +57,67 @@ package main
 //@     assumepre taskOK(arg0) // tasks in the loaded configuration have Env and Variables (built by buildTask)
 //@   callsite runPipeline
 //@     assumepre schedulable(arg0) // established by buildPipeline for every registered pipeline (C18), fresh run
+
+// ---- C07 / C10: targets run in command-line order, nothing after the first failure, nothing after "--"
+//@ pred beforeDash(args []string, n int) := forall j int :: 0 <= j && j < n ==> args[j] != "--"
+
+//@ func buildTaskRunner
+//@   requires c != nil && cfgLoaded()
+//@   modifies *
+//@   ensures result#1 == nil ==> result != nil && runnerOK(result) && cfgLoaded() && compiledClosed()
+
+//@ func rootAction
+//@   ghostlocal failed bool
+//@   requires c != nil && cfgLoaded() && compiledClosed()
+//@   modifies *
+//@   ensures #C07.failure-is-returned failed ==> err != nil
+//@   loop 1 "range targets"
+//@     invariant #same c == c0 && c != nil && taskRunner != nil && runnerOK(taskRunner) && cfgLoaded() && compiledClosed() && len(targets) > 0
+//@     invariant #C07.no-failure-so-far !failed
+//@     invariant #C10.no-dash-so-far beforeDash(targets, rangeindex + 1)
+//@   callsite runTarget
+//@     requires #C07.in-command-line-order arg0 == targets[rangeindex]
+//@     requires #C10.never-a-target-after-dash arg0 != "--" && beforeDash(targets, rangeindex)
+//@     requires #C07.nothing-after-a-failed-target !failed
+//@     assume (forall i int :: 0 <= i && i < len(targets) ==> targets[i] == old(targets[i])) && runnerOK(taskRunner) && cfgLoaded() && compiledClosed() // running a target does not touch the argument vector or the loaded configuration
+//@     ghost failed = failed || result != nil
+//@   callsite Run
+//@     assume result#2 == nil ==> result < len(suggestions) // promptui returns the index of one of the items it was given
+//@   callsite runTask
+//@     assumepre taskOK(arg0) && arg0 != nil // the selected suggestion names a task of the loaded configuration
+//@   callsite runPipeline
+//@     assumepre schedulable(arg0) // the selected suggestion names a pipeline of the loaded configuration (C18)
+
+// `taskctl run TARGET...`: same protocol; the literal word "pipeline" is skipped
+//@ func newRunCommand$3
+//@   ghostlocal failed bool
+//@   requires c != nil && cfgLoaded() && compiledClosed() && taskRunner != nil && runnerOK(taskRunner)
+//@   modifies *
+//@   ensures #C07.failure-is-returned failed ==> err != nil
+//@   loop 1 "range c.Args().Slice()"
+//@     invariant #same c == c0 && c != nil && taskRunner != nil && runnerOK(taskRunner) && cfgLoaded() && compiledClosed()
+//@     invariant #C07.no-failure-so-far !failed
+//@     invariant #C10.no-dash-so-far beforeDash(argsSlice(ctxArgs(c)), rangeindex + 1)
+//@   callsite runTarget
+//@     requires #C07.in-command-line-order arg0 == argsSlice(ctxArgs(c))[rangeindex]
+//@     requires #C10.never-a-target-after-dash arg0 != "--" && beforeDash(argsSlice(ctxArgs(c)), rangeindex)
+//@     requires #C07.nothing-after-a-failed-target !failed
+//@     assume (forall i int :: 0 <= i && i < len(argsSlice(ctxArgs(c))) ==> argsSlice(ctxArgs(c))[i] == old(argsSlice(ctxArgs(c))[i])) && taskRunner != nil && runnerOK(taskRunner) && cfgLoaded() && compiledClosed() // running a target does not touch the argument vector, the captured runner or the loaded configuration
+//@     ghost failed = failed || result != nil
+
+// `taskctl run task TASK...`
+//@ func newRunCommand$4
+//@   ghostlocal failed bool
+//@   requires c != nil && cfgLoaded() && compiledClosed() && taskRunner != nil && runnerOK(taskRunner)
+//@   modifies *
+//@   ensures #C07.failure-is-returned failed ==> result != nil
+//@   loop 1 "range c.Args().Slice()"
+//@     invariant #same c == c0 && c != nil && taskRunner != nil && runnerOK(taskRunner) && cfgLoaded() && compiledClosed()
+//@     invariant #C07.no-failure-so-far !failed
+//@     invariant #C10.no-dash-so-far beforeDash(argsSlice(ctxArgs(c)), rangeindex + 1)
+//@   callsite runTask
+//@     requires #C10.never-a-target-after-dash beforeDash(argsSlice(ctxArgs(c)), rangeindex + 1)
+//@     requires #C07.nothing-after-a-failed-target !failed
+//@     assumepre taskOK(arg0) // tasks of the loaded configuration have Env and Variables (buildTask)
+//@     assume (forall i int :: 0 <= i && i < len(argsSlice(ctxArgs(c))) ==> argsSlice(ctxArgs(c))[i] == old(argsSlice(ctxArgs(c))[i])) && taskRunner != nil && runnerOK(taskRunner) && cfgLoaded() && compiledClosed() // as above
+//@     ghost failed = failed || result != nil
